@@ -941,7 +941,7 @@ def run_crs_churn(R: Run, n: int) -> int:
         before = len(R.oracle_failures)
         out = judge_to_crs(R, gm, poly, wgs84, ref84, pyproj.Transformer.from_crs(ref, ref84, always_xy=True), False, {},
                            case, "churn|to-wgs84")
-        if out is not None and out is not poly:
+        if out is not None and out is not poly and i % 3 == 0:
             case2 = {"fn": "crs-churn", "tile": i, "n": n, "src": "EPSG:4326", "dst": d, "kind": "polygon+hole"}
             judge_to_crs(R, gm, out, crs, ref, pyproj.Transformer.from_crs(ref84, ref, always_xy=True), False, {}, case2,
                          "churn|from-wgs84")
@@ -991,6 +991,8 @@ def run_to_crs_pyproj(R: Run):
                     for o in optsets:
                         if (o["wrapdateline"] or o["check_and_fix"]) and kind in ("point", "multipoint") and res is not None:
                             continue
+                        if R.quick and o["wrapdateline"] and kind not in ("line", "polygon+holes", "multipolygon", "collection"):
+                            continue  # the antimeridian line is re-projected on every call (18 ms)
                         opts = dict(o, resolution=res)
                         if o["check_and_fix"]:
                             # `maybe_fix` only leaves valid results alone: judge those
@@ -1057,7 +1059,7 @@ def run_to_crs_pyproj(R: Run):
                              f"codeless|{state}|" + ("same" if truth_same else "other"), known_key=known)
 
     # ---- C. caches as a history
-    nbad = run_crs_churn(R, R.pick(420, 1500))
+    nbad = run_crs_churn(R, R.pick(340, 1500))
     R.count("crs-churn-bad-tiles", nbad)
 
     # ---- D. resolution="auto" on every kind (zero-area kinds used to hang)
@@ -1231,6 +1233,31 @@ def replay(R: Run, rec) -> int:
             print("output:", out[:12], "..." if len(out) > 12 else "", "max edge", math.sqrt(float(worst)), "resolution", r)
             bad = worst > F(r) ** 2 * (1 + Fraction(1, 10**12)) ** 2 or counts_of(coords, out) is None
             return 1 if bad else 0
+        if fn == "spelling":
+            from decimal import Decimal
+
+            import numpy as np
+
+            v, sk = case["value"], case["spelling"]
+            mk = {"float": float, "np.float64": np.float64, "np.float32": np.float32, "np.float16": np.float16,
+                  "0-d float64 array": lambda x: np.array(x, dtype="float64"), "0-d float32 array": lambda x: np.array(x, dtype="float32"),
+                  "Fraction": Fraction, "Decimal": Decimal, "int": int, "np.int32": np.int32, "np.int64": np.int64,
+                  "np.uint8": np.uint8, "0-d int64 array": lambda x: np.array(int(x), dtype="int64")}[sk]
+            coords = [(0.0, 0.0), (0.0, 7.0), (3.0, 11.0), (3.0, 11.5)]
+            call = case["call"].split("[")[0]
+            g = gm.Geometry({"type": "LineString", "coordinates": coords}, "EPSG:3857")
+            fnc = {"densify": lambda r: gm.densify(list(coords), r), "segmented": lambda r: g.segmented(r).coords,
+                   "to_crs": lambda r: g.to_crs("EPSG:4326", resolution=r).coords,
+                   "lonlat_bounds": lambda r: tuple(gm.lonlat_bounds(g, resolution=r).bbox)}[call]
+            sv = mk(v)
+            with time_limit(5):
+                a, b = fnc(float(v)), fnc(sv)
+            print(f"{call} with {float(v)!r}: {len(a)} values; with {sk} {sv!r}: {len(b)} values; equal: {list(a) == list(b)}")
+            return 0 if list(a) == list(b) else 1
+        if fn == "transformer_to_crs":
+            print("history dependent (transformer cache): rerun `check.py C07` with the recorded seed; the record holds the "
+                  "pair, the axis order and the probe point")
+            return 1
         if fn == "crs-churn":
             before = len(R.oracle_failures)
             nbad = run_crs_churn(R, int(case.get("n", 1500)))
